@@ -3,7 +3,7 @@
 From PV Require Export Names.Checker.
 From PV Require Export gen.Names_env gen.Names_known gen.Names_stim gen.Names_pipeline gen.Names_util
   gen.Names_queue gen.Names_calibration gen.Names_buffer gen.Names_efr gen.Names_stats gen.Names_weighting
-  gen.Names_plot gen.Names_selftest.
+  gen.Names_plot gen.Names_selftest gen.Names_selftest2.
 
 Definition gen_pkg : list module :=
   [gen_stim; gen_pipeline; gen_util; gen_queue; gen_calibration; gen_buffer; gen_efr; gen_stats;
@@ -23,3 +23,15 @@ Definition iir_unrepaired : module :=
      m_items := [Bind "iir" BPlain 543;
                  Sub KFunction "iir" [Bind "truncate" BPlain 544; Use "int" 584; Use "truncate" 584;
                                       Use "fs" 584; Bind "truncate_samples" BPlain 584]] |}.
+
+(* ---- added by the coverage audit: the STRICT reading (end of Scope.v) ------------------------------------ *)
+(* attributes of the package's own modules = only the globals that are really bound after import *)
+Definition gen_env_strict : env := mk_env_strict gen_builtins gen_ext gen_pkg.
+
+(* the importable self-test module (translate/pynames_selftest2.py): the harness imports it, calls every probe and
+   passes the units whose probe raised NameError / AttributeError-on-a-module; the strict checker must report
+   exactly those units *)
+Definition selftest2_env : env := mk_env_strict gen_builtins gen_ext [gen_selftest2].
+Definition check_strict_report (expected : list string) : bool :=
+  let got := map (fun r => fst (fst r)) (unresolved_strict [] selftest2_env gen_selftest2) in
+  forallb (fun u => memb u expected) got && forallb (fun u => memb u got) expected.
